@@ -368,12 +368,20 @@ class _ImmutableTaskList:
         """
         return self._list.__add__(_to_list(other))
 
+    # noinspection PyProtectedMember
     def __lshift__(self, other: Union['Task', Iterable['Task']]):
+        # Validate all tasks before first change, so failed call changes nothing
+        for t in self:
+            t._check_predecessors(t.predecessors + other)
         for t in self:
             t.predecessors += other
         return other
 
+    # noinspection PyProtectedMember
     def __rshift__(self, other: Union['Task', Iterable['Task']]):
+        # Validate all tasks before first change, so failed call changes nothing
+        for t in self:
+            t._check_successors(t.successors + other)
         for t in self:
             t.successors += other
         return other
@@ -855,6 +863,19 @@ class Task:
         :param value: new predecessors
         """
         value = _to_list(value)
+        self._check_predecessors(value)
+
+        for v in self.__predecessors:
+            if self in v.__successors:
+                v.__successors.remove(self)
+
+        self.__predecessors = [v for v in value]
+
+        for v in value:
+            if self not in v.__successors:
+                v.__successors.append(self)
+
+    def _check_predecessors(self, value: List['Task']):
         _check_no_nones_in_list(value, 'predecessors')
 
         parents = self.all_parents
@@ -869,16 +890,6 @@ class Task:
         for v in value:
             if self in v.all_predecessors:
                 raise RuntimeError(f"{self.id} exists in {v.id} predecessors. Cyclic dependency")
-
-        for v in self.__predecessors:
-            if self in v.__successors:
-                v.__successors.remove(self)
-
-        self.__predecessors = [v for v in value]
-
-        for v in value:
-            if self not in v.__successors:
-                v.__successors.append(self)
 
     @property
     def all_predecessors(self) -> _ImmutableTaskList:
@@ -905,6 +916,19 @@ class Task:
         :param value: new direct successors
         """
         value = _to_list(value)
+        self._check_successors(value)
+
+        for v in self.__successors:
+            if self in v.__predecessors:
+                v.__predecessors.remove(self)
+
+        self.__successors = [v for v in value]
+
+        for v in value:
+            if self not in v.__predecessors:
+                v.__predecessors.append(self)
+
+    def _check_successors(self, value: List['Task']):
         _check_no_nones_in_list(value, 'successors')
 
         parents = self.all_parents
@@ -919,16 +943,6 @@ class Task:
         for v in value:
             if self in v.all_successors:
                 raise RuntimeError(f"{self.id} exists in {v.id} successors. Cyclic dependency")
-
-        for v in self.__successors:
-            if self in v.__predecessors:
-                v.__predecessors.remove(self)
-
-        self.__successors = [v for v in value]
-
-        for v in value:
-            if self not in v.__predecessors:
-                v.__predecessors.append(self)
 
     @property
     def all_successors(self) -> _ImmutableTaskList:
